@@ -97,3 +97,13 @@ prop("C16",
            thorough={"params": {"tail": 64}, "timeout_ms": 120000}),
          H("txfile.VerifFnvStep", "one step of hash/fnv 32a is injective in state and in byte", "all 2^32 states x 2^8 bytes"),
      ])
+
+# ------------------------------------------------------------------ C15
+prop("C15",
+     bounds="fresh 64-page file with 2 committed pages; receiver lifecycle in {committed, rolled back, closed, failed commit (injected sync failure), read-only active, read-only closed} x 18 method groups of Tx and Page; "
+            "inside an active write transaction: out-of-range ids (any 64-bit value), freed page, dirty page, flushed page, oversize contents, fresh page without contents, AllocN(n<=0), AllocN beyond the maximum",
+     outside="receivers reached through longer histories (the checks use one prefix history); pq receivers are covered by the pq harnesses of this property",
+     harnesses=[
+         H("txfile.VerifMisuseLifecycle", "calls on finished / read-only transactions and their pages: documented error kind, no panic, nothing changes, file not blocked", "6 lifecycle states x 18 method groups"),
+         H("txfile.VerifMisuseActive", "invalid operations in an active write transaction: documented error kind, state unchanged after rollback", "9 cases, symbolic page id"),
+     ])
